@@ -33,7 +33,8 @@ def input_iterator_with_fixed_sum(
             _inp[idx] = False ^ _negations[idx]
         for idx in indexes:
             _inp[idx] = True ^ _negations[idx]
-        yield _inp
+        # a fresh list each time: a consumer may keep (or hand back) what it was given.
+        yield list(_inp)
 
 
 def order_list(
